@@ -1403,6 +1403,7 @@ func ruleExtNext(c *Ctx) {
 		return
 	}
 	info := pk.TypesInfo
+	extDecoderRefusesEmptyNext(c)
 	ctorIdx := map[string]int{"pkg/core/mpt.NewExtensionNode": 1, "pkg/core/mpt.(*Trie).newSubTrie": 1}
 	type argRef struct {
 		fd   *FuncDecl
@@ -4733,4 +4734,52 @@ func ruleVarSizeArgTypes(c *Ctx) {
 		})
 	}
 	c.Floor("call sites of io.GetVarSize", n, 20)
+}
+
+// extDecoderRefusesEmptyNext: the decoder is the other way an extension node comes into being. A record
+// "extension, key, empty child" cannot come from a valid trie; accepted, it gives a node whose Size() (which relies on
+// "next is never empty") is 32 bytes more than its encoding and whose walk ends in nothing. The decoder of
+// ExtensionNode must set the reader's error on a path where the decoded child is the empty node, before it stores it.
+func extDecoderRefusesEmptyNext(c *Ctx) {
+	fd := c.P.Func("pkg/core/mpt", "ExtensionNode", "decodeBinaryWithDepth")
+	if fd == nil {
+		c.Lost("ext-next.decoder.anchor", "ExtensionNode.decodeBinaryWithDepth not found")
+		return
+	}
+	f := c.P.NewFuncCFG(fd)
+	refuses := false
+	ast.Inspect(fd.Decl.Body, func(x ast.Node) bool {
+		is, ok := x.(*ast.IfStmt)
+		if !ok {
+			return true
+		}
+		m := f.DirectMentions(is.Cond)
+		if !(m["pkg/core/mpt.isEmpty"] || m["pkg/core/mpt.EmptyNode"] || m["pkg/core/mpt.EmptyT"]) {
+			return true
+		}
+		for _, w := range nodeWritesIn(f, is.Body) {
+			if w == "pkg/io#Err" {
+				refuses = true
+			}
+		}
+		return true
+	})
+	if refuses {
+		c.OK("ext-next.decoder", c.P.Pos(fd.Decl.Pos()), "the decoder of an extension node sets the reader's error when the decoded child is the empty node")
+	} else {
+		c.Fail("ext-next.decoder", c.P.Pos(fd.Decl.Pos()), "ExtensionNode.decodeBinaryWithDepth accepts an extension whose child is the empty node: no valid trie contains one, its Size() (next is never empty) is 32 bytes more than its encoding, and a proof or a peer can hand the node one")
+	}
+}
+
+func nodeWritesIn(f *FuncCFG, n ast.Node) []string {
+	var out []string
+	ast.Inspect(n, func(x ast.Node) bool {
+		if st, ok := x.(ast.Stmt); ok {
+			for _, w := range nodeWrites(f.Info, st, false) {
+				out = append(out, w.Field)
+			}
+		}
+		return true
+	})
+	return out
 }
